@@ -208,6 +208,15 @@ func (f *vc8Field) options() []pilosa.FieldOption {
 	return o
 }
 
+// topnCacheExact: a set/mutex field with a ranked or LRU cache that holds every row the
+// generator can write (the row pool) in every fragment.
+func (f *vc8Field) topnCacheExact() bool {
+	if f.Typ != "set" && f.Typ != "mutex" || f.CacheType == "none" {
+		return false
+	}
+	return f.CacheSize == 0 || int(f.CacheSize) > len(f.rowPool)
+}
+
 func (f *vc8Field) describe() string {
 	return fmt.Sprintf("%s:%s keys=%v cache=%s/%d int=[%d,%d] q=%s noStd=%v", f.Name, f.Typ, f.Keys, f.CacheType, f.CacheSize, f.Min, f.Max, f.Quantum, f.NoStd)
 }
@@ -400,7 +409,7 @@ func (c *vc8Case) step(i int) {
 	idx := c.idxs[rapid.IntRange(0, len(c.idxs)-1).Draw(t, "idx")]
 	op := rapid.SampledFrom([]string{
 		"createField", "set", "set", "set", "set", "clear", "clearRow", "store", "store", "import", "import",
-		"importClear", "importValue", "importValue", "importRoaring", "importRoaring", "rowAttrs", "colAttrs", "attrsEmpty", "attrsEmpty", "bulkValueRetry", "bulkValueRetry", "bulkImportRetry", "deleteField", "recreateField",
+		"importClear", "importValue", "importValue", "importRoaring", "importRoaring", "rowAttrs", "colAttrs", "attrsEmpty", "attrsEmpty", "bulkValueRetry", "bulkValueRetry", "bulkImportRetry", "snapWriteReopen", "snapWriteReopen", "deleteField", "recreateField",
 		"recreateIndex", "reopen", "reopen",
 	}).Draw(t, "op")
 	bitFields := c.fieldsOf(idx, func(f *vc8Field) bool { return f.Typ != "int" })
@@ -873,6 +882,64 @@ func (c *vc8Case) step(i int) {
 		c.cls["bulk-Import-retry-then-small-writes"] = true
 		c.nt = true
 		c.reopen()
+	case "snapWriteReopen":
+		// a write that makes the fragment snapshot (Store, ClearRow, or an import of more
+		// than MaxOpN bits) on a field with a TopN cache, immediately followed by a restart
+		fs := c.fieldsOf(idx, func(f *vc8Field) bool { return f.topnCacheExact() && !f.Keys })
+		if len(fs) == 0 {
+			return
+		}
+		f := fs[rapid.IntRange(0, len(fs)-1).Draw(t, "f")]
+		kind := rapid.SampledFrom([]string{"store", "store", "clearRow", "bigImport"}).Draw(t, "snapKind")
+		row := rapid.SampledFrom(f.rowPool).Draw(t, "row")
+		switch {
+		case kind == "store" && f.Typ == "set":
+			srcs := c.fieldsOf(idx, func(g *vc8Field) bool { return g.Typ != "int" && !g.NoStd })
+			src := srcs[rapid.IntRange(0, len(srcs)-1).Draw(t, "src")]
+			srow := rapid.SampledFrom(src.rowPool).Draw(t, "srow")
+			if rs := src.rowsWithBits(); len(rs) > 0 && rapid.IntRange(0, 3).Draw(t, "srcFull") != 0 {
+				srow = rapid.SampledFrom(rs).Draw(t, "srowFull")
+			}
+			q := fmt.Sprintf("Store(Row(%s=%s), %s=%s)", src.Name, vc8rowLit(src, srow), f.Name, row)
+			c.query(idx, q)
+			cp := map[string]bool{}
+			for k, v := range src.bits[srow] {
+				if v {
+					cp[k] = true
+				}
+			}
+			f.bits[row] = cp
+			idx.touched[0] = true
+			c.logf("%s: %s", idx.Name, q)
+		case kind == "bigImport" && !idx.Keys && !c.bulkDone["snap"] && f.Typ == "set":
+			c.bulkDone["snap"] = true
+			rowID, _ := strconv.ParseUint(row, 10, 64)
+			shard := rapid.SampledFrom([]uint64{0, 1}).Draw(t, "bshard")
+			const n = 10300
+			r := &pilosa.ImportRequest{Index: idx.Name, Field: f.Name, Shard: shard}
+			for i := 0; i < n; i++ {
+				r.RowIDs = append(r.RowIDs, rowID)
+				r.ColumnIDs = append(r.ColumnIDs, shard*vc8SW+20000+uint64(i))
+			}
+			if err := c.cmd.API.Import(context.Background(), r); err != nil {
+				c.fatalf("big Import(%s/%s): %v", idx.Name, f.Name, err)
+			}
+			for i := 0; i < n; i++ {
+				c.applySetBit(idx, f, row, strconv.FormatUint(shard*vc8SW+20000+uint64(i), 10), nil)
+			}
+			c.logf("Import(%s/%s shard=%d row=%d cols=%d..%d)", idx.Name, f.Name, shard, rowID, shard*vc8SW+20000, shard*vc8SW+20000+n-1)
+		default:
+			if rs := f.rowsWithBits(); len(rs) > 0 {
+				row = rapid.SampledFrom(rs).Draw(t, "rowFull")
+			}
+			q := fmt.Sprintf("ClearRow(%s=%s)", f.Name, vc8rowLit(f, row))
+			c.query(idx, q)
+			delete(f.bits, row)
+			c.logf("%s: %s", idx.Name, q)
+		}
+		c.cls["restart-right-after-snapshotting-write"] = true
+		c.nt = true
+		c.reopen()
 	case "attrsEmpty":
 		// delete every attribute of one row or column with nulls, so that the id is left
 		// without attributes (set one first when the model has none to delete)
@@ -1071,6 +1138,11 @@ func (c *vc8Case) probeRow(idx *vc8Index, q string, wantCols map[string]bool, at
 
 func (c *vc8Case) battery() []vc8Probe {
 	var ps []vc8Probe
+	// TopN(n) reads the rank caches' sorted view, which is refreshed at most every
+	// 10 s on its own: force it, so that the answers below are defined.
+	if err := c.cmd.API.RecalculateCaches(context.Background()); err != nil {
+		c.fatalf("RecalculateCaches: %v", err)
+	}
 	// schema
 	sj, err := json.Marshal(c.cmd.API.Schema(context.Background()))
 	if err != nil {
@@ -1384,6 +1456,66 @@ func (c *vc8Case) fieldBattery(idx *vc8Index, f *vc8Field) []vc8Probe {
 			sort.Strings(got)
 			sort.Strings(want)
 			ps = append(ps, vc8Probe{desc: fmt.Sprintf("%s: TopN(%s, ids=[%s])", idx.Name, f.Name, ids), got: "topn=" + strings.Join(got, ","), want: "topn=" + strings.Join(want, ",")})
+		}
+		// TopN from the caches (no ids), with and without a filter row. Sound where every
+		// row ever written fits each fragment's cache and n covers all rows: the answer is
+		// then the exact set of (row, count) pairs (order of ties is free, so compared sorted).
+		if f.topnCacheExact() {
+			pairStr := func(q string) string {
+				resp := c.query(idx, q)
+				pairs, ok := resp.Results[0].([]pilosa.Pair)
+				if !ok {
+					c.fatalf("%s: result is %T", q, resp.Results[0])
+				}
+				var got []string
+				for _, p := range pairs {
+					id := strconv.FormatUint(p.ID, 10)
+					if f.Keys {
+						id = p.Key
+					}
+					got = append(got, fmt.Sprintf("%s:%d", id, p.Count))
+				}
+				sort.Strings(got)
+				return "topn=" + strings.Join(got, ",")
+			}
+			n := len(f.rowPool) + 1
+			var want []string
+			for _, r := range f.rowPool {
+				if k := len(vc8sorted(f.bits[r], false)); k > 0 {
+					want = append(want, fmt.Sprintf("%s:%d", r, k))
+				}
+			}
+			sort.Strings(want)
+			q := fmt.Sprintf("TopN(%s, n=%d)", f.Name, n)
+			ps = append(ps, vc8Probe{desc: idx.Name + ": " + q, got: pairStr(q), want: "topn=" + strings.Join(want, ",")})
+			// filter: the first populated row of the first other bit field with a standard view
+			for _, on := range idx.order {
+				g := idx.fields[on]
+				if g.Typ == "int" || g.NoStd {
+					continue
+				}
+				rows := g.rowsWithBits()
+				if len(rows) == 0 {
+					continue
+				}
+				src := g.bits[rows[0]]
+				var wantF []string
+				for _, r := range f.rowPool {
+					k := 0
+					for col, v := range f.bits[r] {
+						if v && src[col] {
+							k++
+						}
+					}
+					if k > 0 {
+						wantF = append(wantF, fmt.Sprintf("%s:%d", r, k))
+					}
+				}
+				sort.Strings(wantF)
+				q := fmt.Sprintf("TopN(%s, Row(%s=%s), n=%d)", f.Name, g.Name, vc8rowLit(g, rows[0]), n)
+				ps = append(ps, vc8Probe{desc: idx.Name + ": " + q, got: pairStr(q), want: "topn=" + strings.Join(wantF, ",")})
+				break
+			}
 		}
 	}
 	// time views: one single-unit range per existing view, all rows
